@@ -247,13 +247,13 @@ func vfC23Server(www bool, seenPrincipal *[]string) (*HttpServer, error) {
 	return h, nil
 }
 
-func vfC23Post(h *HttpServer, route string) (int, http.Header, any) {
+func vfC23Post(h *HttpServer, route string, hdr ...string) (int, http.Header, any) {
 	switch route {
 	case "init":
-		rec, p := vfArrowPost(h, "/prod/init", vfNoParamsReq("prod"))
+		rec, p := vfArrowPost(h, "/prod/init", vfNoParamsReq("prod"), hdr...)
 		return rec.Code, rec.Header(), p
 	default:
-		rec, p := vfArrowPost(h, "/who", vfNoParamsReq("who"))
+		rec, p := vfArrowPost(h, "/who", vfNoParamsReq("who"), hdr...)
 		return rec.Code, rec.Header(), p
 	}
 }
@@ -271,7 +271,15 @@ func TestVerif_C23(t *testing.T) {
 		v := all[x.Choose(len(all), "value")]
 		www := x.Bool("www-authenticate")
 		route := x.Pick("route", "unary", "init")
-		viaChain := x.Bool("via-chain-of-1")
+		// How the authenticator is installed and where the credential travels:
+		// directly / through a chain of one / behind the chain the SERVER builds
+		// in SetOAuthPkce (configured authenticator + login-cookie arm), with the
+		// credential in the Authorization header or only in the login cookie.
+		install := x.Pick("install", "direct", "chain-of-1", "pkce/credential-in-header", "pkce/credential-in-cookie")
+		pkce := strings.HasPrefix(install, "pkce/")
+		if pkce {
+			www = true // SetOAuthPkce needs the resource metadata
+		}
 
 		var seen []string
 		h, err := vfC23Server(www, &seen)
@@ -282,31 +290,60 @@ func TestVerif_C23(t *testing.T) {
 		calls := 0
 		fn := AuthenticateFunc(func(r *http.Request) (*AuthContext, error) {
 			calls++
+			if pkce && r.Header.Get("Authorization") == "" {
+				// the configured authenticator only looks at the Authorization header
+				return nil, &RpcError{Type: "ValueError", Message: "no credential presented"}
+			}
 			if v.ok() {
 				return &AuthContext{Domain: "vf", Authenticated: true, Principal: "p0"}, nil
 			}
 			return nil, v.mk()
 		})
-		if viaChain {
+		if install == "chain-of-1" {
 			fn = ChainAuthenticate(fn)
 		}
 		h.SetAuthenticate(fn)
-		code, hdr, pan := vfC23Post(h, route)
+		var reqHdr []string
+		if pkce {
+			if err := h.SetOAuthPkce(OAuthPkceConfig{}); err != nil {
+				venum.EngineError("C23 SetOAuthPkce: %v", err)
+				return
+			}
+			h.pkce.oidcDiscovery = func() (string, string, bool) { return "", "", false } // never fetch
+			if install == "pkce/credential-in-header" {
+				reqHdr = []string{"Authorization", "Bearer cred-1"}
+			} else {
+				reqHdr = []string{"Cookie", authCookieName + "=cred-1"}
+			}
+		}
+		code, hdr, pan := vfC23Post(h, route, reqHdr...)
 		sig := "C23:map:" + v.base + ":" + v.form
+		if pkce {
+			sig = "C23:map:" + install + ":" + v.base + ":" + v.form
+		}
 		if pan != nil {
 			x.Failf(sig+":panic", "panic escaped: %v", pan)
 			return
 		}
-		want := vfC23Reference(v)
-		vfC23Check(x, sig, want, code, hdr, www, h.wwwAuthenticate)
-		if v.ok() {
-			if len(seen) != 1 || !strings.HasSuffix(seen[0], ":p0") {
-				x.Failf(sig+":identity", "handler saw %v, want one call as p0", seen)
+		if pkce && v.directRpc == "ValueError" {
+			// the configured authenticator declines with a bare ValueError: the
+			// server-built chain runs out of members; only "not a success" is stated
+			if code == 200 || len(seen) != 0 {
+				x.Failf(sig+":exhausted-chain-accepted", "status %d, handler calls %v", code, seen)
 			}
-		} else if len(seen) != 0 {
-			x.Failf(sig+":handler-ran", "rejected request reached user code: %v", seen)
+		} else {
+			// the configured authenticator's verdict on the presented credential is v
+			want := vfC23Reference(v)
+			vfC23Check(x, sig, want, code, hdr, www, h.wwwAuthenticate)
+			if v.ok() {
+				if len(seen) != 1 || !strings.HasSuffix(seen[0], ":p0") {
+					x.Failf(sig+":identity", "handler saw %v, want one call as p0", seen)
+				}
+			} else if len(seen) != 0 {
+				x.Failf(sig+":handler-ran", "rejected request reached user code: %v", seen)
+			}
 		}
-		if calls != 1 {
+		if !pkce && calls != 1 {
 			x.Failf(sig+":auth-calls", "authenticator called %d times for one request", calls)
 		}
 		x.Outcome("%d|reason=%s|ra=%s|cc=%s|www=%v|ran=%d", code, hdr.Get(HeaderAuthReason), hdr.Get("Retry-After"),
